@@ -47,7 +47,9 @@ def partition(ctx, fx):
              "constructor initialises them with (rfirst <- l, rlast <- f), and update() only widens them with min/max")
     ctx.rule("C16.partition.serial-cleanup",
              "partition(): inputs of at most 1024 elements go to std::partition; otherwise every path that is not the no-leftover "
-             "path returns std::partition(s.rfirst, s.rlast, pred); the no-leftover path returns s.first")
+             "path returns std::partition(min(s.rfirst, m), max(s.rlast, m), pred) with m the claim cursor (s.first == s.last "
+             "after the parallel phase): the span contains the meeting point, so everything left of it is a finished low block "
+             "and everything right of it a finished high block; the no-leftover path returns s.first")
     ctx.rule("C16.partition.block-claiming",
              "takeLow / takeHigh: block size = min(BlockSize(), distance(first, last)); takeLow returns [first, first + BS) and "
              "advances first; takeHigh retreats last by BS and returns [last, last + BS); the worker re-claims exactly when a "
@@ -79,9 +81,31 @@ def partition(ctx, fx):
         sp = [e for _, e in fn.events(is_call(name="partition"))]
         rets = [(p, S(e.get("e"))) for p, e in fn.events(lambda e: e["k"] == "ret")]
         vals = sorted(v for _, v in rets)
-        want = sorted(["partition(%s,%s,%s)" % (first, last, pred), "partition(s.rfirst,s.rlast,%s)" % pred, "s.first"])
-        if vals != want:
+        fixed = sorted(["partition(%s,%s,%s)" % (first, last, pred), "s.first"])
+        other = [(pp, e) for pp, e in fn.events(lambda e: e["k"] == "ret") if S(e.get("e")) not in fixed]
+        if sorted(v for v in vals if v in fixed) != fixed or len(other) != 1:
             det.append("returns %s" % vals)
+        for pp, e in other:
+            t = e.get("e")
+            while isinstance(t, dict) and t.get("k") in ("ctor", "cast") and (t.get("a") or t.get("e")):
+                t = t["a"][0] if t.get("k") == "ctor" else t["e"]
+            a = t.get("a", []) if isinstance(t, dict) and t.get("k") == "call" and t.get("name") == "partition" else []
+            if len(a) != 3 or S(a[2]) != pred:
+                det.append("clean-up is %s" % S(e.get("e")))
+                continue
+
+            def bound(x, fn_name, own):
+                """x == fn_name(own, claim cursor) in either argument order"""
+                while isinstance(x, dict) and x.get("k") in ("ctor", "cast") and (x.get("a") or x.get("e")):
+                    x = x["a"][0] if x.get("k") == "ctor" else x["e"]
+                if not (isinstance(x, dict) and x.get("k") == "call" and x.get("name") == fn_name and len(x.get("a", [])) == 2):
+                    return False
+                got = {S(y) for y in x["a"]}
+                return own in got and bool(got & {"s.first", "s.last"})
+            if not bound(a[0], "min", "s.rfirst") or not bound(a[1], "max", "s.rlast"):
+                det.append("the serial clean-up span [%s, %s) is the hull of the leftover blocks only: it need not contain the "
+                           "point where the low and the high claims met, so with all leftovers on one side false elements stay "
+                           "in front of finished all-true blocks" % (S(a[0]), S(a[1])))
         small = lambda t: "1024" in S(t) and "distance" in S(t)
         r_small = lambda e: e.get("k") == "ret" and S(e.get("e")) == "partition(%s,%s,%s)" % (first, last, pred)
         if fn.guarded_positions(r_small, small, True):
